@@ -159,7 +159,8 @@ func corpus(thorough bool) [][]bqlm.Clause {
 	}
 	// aggregate form (GROUP BY the first binding, count and count distinct of the second): same relations
 	for bi, b := range bqlm.BaseClauses() {
-		if !thorough && bi%4 != 0 {
+		so := b.S.Kind == bqlm.Bind && b.O.Kind == bqlm.Bind // subject and object columns: always taken
+		if !thorough && bi%4 != 0 && !so {
 			continue
 		}
 		for _, named := range bqlm.Namings([]bqlm.Clause{b}) {
